@@ -25,3 +25,8 @@ Definition model_agrees_k (p : path) (k : kind) (v : pyv) (observed : res val) :
 (* a column object as value; tc = the _typechecking flag of the target column observed before the write *)
 Definition model_agrees_colval (tc : bool) (f : colform) (k k2 : kind) (raw : pyv) (observed : res val) : bool :=
   res_same (store_colval tc f k k2 raw) observed.
+
+(* dm.name = column: the four facts the by-reference test of DataMatrix._set_col looks at, observed before the write *)
+Definition model_agrees_setcol (same_owner is_own_column same_len same_ids : bool) (k2 : kind) (raw : pyv)
+  (observed : res val) : bool :=
+  res_same (store_setcol same_owner is_own_column same_len same_ids k2 raw) observed.
